@@ -63,6 +63,8 @@ def gen_pattern_settings(rng):
         src = [['min', k, True] for _ in range(rng.randint(1, 3))]
         t = rng.choice([[1], [0, 1]])
         tgt = [['list', list(t), True] for _ in range(rng.randint(1, 3))]
+        if rng.random() < 0.3:
+            tgt = [['list', list(rng.choice([[1], [0, 1]])), True] for _ in tgt]      # mixed kinds of targets
     elif kind == 'connecting':
         n = rng.randint(2, 3)
         src = [['min', 0, False] for _ in range(n)]
